@@ -212,6 +212,33 @@ class ExprMixin(object):
             self.dict_set(st, Val.r(d.t), kv.t, vv.t)
         return d
 
+    def e_Yield(self, st, e):
+        """`yield` inside a @contextmanager generator: the with-body runs here.  Its effect is given by the
+        contract's yield_spec: havoc `modifies`, assume `ensures`, and it may raise."""
+        c = self.cur_contract
+        ys = getattr(c, 'yield_spec', None)
+        if ys is None or len(self.frames) != 1:
+            raise EngineError('yield outside a context-manager contract')
+        env = dict(self.top_env)
+        env.update({k: v for k, v in st.vars.items() if v is not UNBOUND})
+        pre = State(dict(env), dict(st.heap), st.guard)
+        self.havoc(st, c, env, ys.get('modifies', []))
+        may = fresh('body_raises', BoolS)
+        self.raise_exit(st, Exception, may, getattr(e, 'lineno', 0))
+        for ex_ in self.frame().exits[-1:]:
+            pass
+        for expr in ys.get('ensures', []):
+            wd, truth = self.eval_spec(st, expr, c, env, pre)
+            self.assume(st, And(wd, truth))
+            # the same facts hold when the body raised (they describe balanced use of the writer)
+        if self.frame().exits and self.frame().exits[-1].kind == 'raise' and self.frame().exits[-1].exc is Exception:
+            es = self.frame().exits[-1].state
+            es.heap = dict(st.heap)
+            for expr in ys.get('ensures', []):
+                wd, truth = self.eval_spec(es, expr, c, env, pre)
+                self.assumes.append(z3.Implies(es.guard, And(wd, truth)))
+        return self.lift(None)
+
     def e_Lambda(self, st, e):
         return Closure(e, {'vars': st.vars, 'parent': self.frame().closure_env}, self.frame().module, '<lambda>')
 
@@ -642,6 +669,8 @@ class ExprMixin(object):
             # class-level attribute (may be shadowed by an instance attribute set in __init__)
             for c in classes:
                 val = inspect.getattr_static(c, name)
+                if callable(val) and not inspect.isclass(val):
+                    return Bound(base, None, name)      # C-level method descriptor: by contract
                 return self.lift(val)
         raise EngineError('attr kind ' + kind)
 
@@ -727,10 +756,15 @@ class ExprMixin(object):
             self.raise_exit(st, IndexError, Or(i >= n, i < -n), line)
             pos = z3.If(i < 0, n + i, i)
             t = self.list_elem(st, r, pos)
-            if h.elem is not None:
-                self.assume(st, h.elem.assumption(t))
+            es = h.elem
+            if isinstance(es, (list, tuple)):
+                ci = self.const_int(idx)
+                es = es[ci] if ci is not None and -len(es) <= ci < len(es) else None
+            if es is not None:
+                self.assume(st, es.assumption(t))
+                self.assume_class_invariants(st, t, es)
             self.known_ref(st, t)
-            return V(t, h.elem)
+            return V(t, es)
         if h is not None and h.kind == 'dict':
             r = Val.r(base.t)
             t = self.dict_get(st, r, idx.t)
